@@ -1,10 +1,13 @@
 from cfg.common import FLOAT_ASSUMPTION, NOTE_COMMON
+from cfg.kernels_pre import regen as regen_kernels, KERNEL_THEOREMS, KERNEL_TRUSTED, KERNEL_ASSUMPTION
 
 PROP = {
     'anchors': [('consist/locomotive/powertrain/fuel_converter.rs', 'set_cur_pwr_out_max'), ('consist/locomotive/powertrain/fuel_converter.rs', 'solve_energy_consumption'), ('consist/locomotive/powertrain/generator.rs', 'set_pwr_in_req'), ('consist/locomotive/powertrain/generator.rs', 'set_cur_pwr_max_out'), ('consist/locomotive/powertrain/electric_drivetrain.rs', 'set_pwr_in_req'), ('consist/locomotive/powertrain/electric_drivetrain.rs', 'set_cur_pwr_max_out'), ('consist/locomotive/powertrain/electric_drivetrain.rs', 'set_cur_pwr_regen_max'), ('consist/locomotive/powertrain/reversible_energy_storage.rs', 'set_cur_pwr_out_max'), ('consist/locomotive/powertrain/reversible_energy_storage.rs', 'solve_energy_consumption'), ('consist/locomotive/conventional_loco.rs', 'set_cur_pwr_max_out'), ('consist/locomotive/battery_electric_loco.rs', 'set_cur_pwr_max_out'), ('consist/locomotive/battery_electric_loco.rs', 'solve_energy_consumption'), ('consist/locomotive/locomotive_model.rs', 'set_cur_pwr_max_out'), ('consist/consist_model.rs', 'set_cur_pwr_max_out'), ('consist/consist_model.rs', 'solve_energy_consumption'), ('utils/mod.rs', 'almost_le'), ('utils/mod.rs', 'almost_ge'), ('utils/mod.rs', 'interp1d')],
     'blocks': ['pt'],
-    'proof_modules': ['C09'],
-    'namespaces': ['Altrios.Proofs.C09'],
+    'pre': [regen_kernels],
+    'trusted_extra': [KERNEL_TRUSTED],
+    'proof_modules': ['C09', 'Kernels'],
+    'namespaces': ['Altrios.Proofs.C09', 'Altrios.Proofs.Kernels'],
     'required_theorems': [
         'Altrios.Proofs.C09.C09_fc_cur_eq', 'Altrios.Proofs.C09.C09_fc_ramp', 'Altrios.Proofs.C09.C09_fc_le_rating',
         'Altrios.Proofs.C09.C09_fc_accept', 'Altrios.Proofs.C09.C09_fc_step', 'Altrios.Proofs.C09.C09_gen_accept',
@@ -12,7 +15,7 @@ PROP = {
         'Altrios.Proofs.C09.C09_res_derating', 'Altrios.Proofs.C09.C09_loco_limits', 'Altrios.Proofs.C09.C09_loco_step',
         'Altrios.Proofs.C09.C09_consist_accept', 'Altrios.Proofs.C09.C09_consist_limits',
         'Altrios.Proofs.C09.C09_soc_step', 'Altrios.Proofs.C09.soc_window_partial', 'Altrios.Proofs.C09.C09_bel_soc_run',
-    ],
+    ] + KERNEL_THEOREMS,
     'nontrivial_stats': ['pt.loco.traction', 'pt.loco.braking', 'pt.consist.traction_', 'pt.consist.braking_',
                          'pt.soc_window.in_domain'],
     'rule': 'as C01, with the demand of every step chosen relative to the limits the implementation just published '
@@ -23,7 +26,7 @@ PROP = {
                     'SOC-window clause holds inside the step-size domain H_dt (rating*(1+tol)*dt <= eta_min*cap*ramp width): '
                     'FORCED (C09_soc_window_counterexample); outside it the oracle only counts',
                     'standalone units never compare the request with the published pwr_out_max (C09_loco_unit_limit_counterexample): '
-                    'the clause "tractive power within the published locomotive limit" is enforced and proved at consist level'],
+                    'the clause "tractive power within the published locomotive limit" is enforced and proved at consist level'] + [KERNEL_ASSUMPTION],
 }
 
 TEXT = {
